@@ -21,6 +21,16 @@ pub struct Violation {
     pub key: String,
 }
 
+/// If a rejected request named the delivery, the same observation is also a violation of
+/// "a rejected request changes nothing".
+fn also_rejected(out: &mut Vec<Violation>, lease: &Lease, detail: &str) {
+    match lease.rejected {
+        Some("ModifyAckDeadline") => out.push(v("C05.reject", "rejected_request_applied", format!("a rejected ModifyAckDeadline named this delivery, yet: {detail}"))),
+        Some(_) => out.push(v("C17.nochange", "rejected_request_applied", format!("a rejected Acknowledge named this delivery, yet: {detail}"))),
+        None => {}
+    }
+}
+
 fn v(rule: &str, key: impl Into<String>, detail: impl Into<String>) -> Violation {
     Violation { rule: rule.to_string(), key: key.into(), detail: detail.into() }
 }
@@ -37,6 +47,10 @@ pub struct Lease {
     pub acked_at: Option<(u64, u64)>,
     pub modified: bool,
     pub nacked: bool,
+    /// A request that was *rejected* (INVALID_ARGUMENT / NOT_FOUND) named this ack id. Rejected
+    /// requests have no effect in the model; if the implementation applied one anyway, the rule
+    /// that notices is reported under C05.reject / C17.nochange as well.
+    pub rejected: Option<&'static str>,
 }
 
 #[derive(Clone, Debug)]
@@ -59,6 +73,8 @@ pub struct Ctx<'a> {
     mods: HashMap<(String, String), Vec<Modification>>,
     /// (sub, ack id) -> acknowledgements: (end_seq, inv_seq, done (seq,t) if certainly processed)
     acks: HashMap<(String, String), Vec<(Option<u64>, u64, Option<(u64, u64)>)>>,
+    /// (sub, ack id) -> kind of a rejected request that named it, with its invoke seq
+    rejected: HashMap<(String, String), Vec<(&'static str, u64)>>,
 }
 
 /// Ack IDs are numbers; spellings that denote the same number ("+5", "005") name the same
@@ -74,7 +90,25 @@ impl<'a> Ctx<'a> {
     pub fn new(plan: &'a Plan, m: &'a Model<'a>) -> Self {
         let mut mods: HashMap<(String, String), Vec<Modification>> = HashMap::new();
         let mut acks: HashMap<(String, String), Vec<(Option<u64>, u64, Option<(u64, u64)>)>> = HashMap::new();
+        let mut rejected: HashMap<(String, String), Vec<(&'static str, u64)>> = HashMap::new();
         for c in m.calls.values() {
+            // A request answered INVALID_ARGUMENT or NOT_FOUND was rejected: no effect in the model.
+            if matches!(c.out, Some(Outcome::Err(INVALID_ARGUMENT, _)) | Some(Outcome::Err(NOT_FOUND, _))) {
+                match &c.req {
+                    Req::ModAck { sub, ack_ids, .. } => {
+                        for a in ack_ids {
+                            rejected.entry((sub.clone(), canon_ack(a))).or_default().push(("ModifyAckDeadline", c.inv_seq));
+                        }
+                    }
+                    Req::Ack { sub, ack_ids } => {
+                        for a in ack_ids {
+                            rejected.entry((sub.clone(), canon_ack(a))).or_default().push(("Acknowledge", c.inv_seq));
+                        }
+                    }
+                    _ => {}
+                }
+                continue;
+            }
             match &c.req {
                 Req::ModAck { sub, ack_ids, secs } => {
                     let definite = c.returned_ok();
@@ -120,6 +154,13 @@ impl<'a> Ctx<'a> {
                 for a in ack_ids {
                     acks.entry((s.sub.clone(), canon_ack(a))).or_default().push((end_seq, *seq, done));
                 }
+                let frame_rejected = *hostile && matches!(&s.end, Some((_, _, StreamEnd::Status(INVALID_ARGUMENT, _))));
+                if frame_rejected {
+                    for a in modacks.iter() {
+                        rejected.entry((s.sub.clone(), canon_ack(a))).or_default().push(("ModifyAckDeadline", *seq));
+                    }
+                    continue;
+                }
                 for (i, a) in modacks.iter().enumerate() {
                     let n = secs.get(i).cloned().unwrap_or(0);
                     mods.entry((s.sub.clone(), canon_ack(a))).or_default().push(Modification {
@@ -137,7 +178,7 @@ impl<'a> Ctx<'a> {
         for list in mods.values_mut() {
             list.sort_by_key(|x| x.inv_seq);
         }
-        Ctx { plan, m, mods, acks }
+        Ctx { plan, m, mods, acks, rejected }
     }
 
     /// The lease of delivery `d` as it can be known to an observation made during the window
@@ -151,6 +192,12 @@ impl<'a> Ctx<'a> {
         let mut nacked = false;
         let mut maybe_acked = false;
         let mut acked_at = None;
+        let mut rejected = None;
+        if let Some(list) = self.rejected.get(&(d.sub.clone(), canon_ack(&d.recv.ack_id))) {
+            if let Some((kind, _)) = list.iter().find(|(_, inv)| *inv <= to_seq && *inv >= d.lo_seq) {
+                rejected = Some(*kind);
+            }
+        }
         match &d.via {
             Via::Push { post } => {
                 // The server settles push deliveries itself when the endpoint answers.
@@ -221,7 +268,7 @@ impl<'a> Ctx<'a> {
                 }
             }
         }
-        Lease { lo, hi, maybe_acked, acked_at, modified, nacked }
+        Lease { lo, hi, maybe_acked, acked_at, modified, nacked, rejected }
     }
 
     /// The lease with everything that ever happened in the run taken into account.
@@ -507,6 +554,7 @@ fn rule_c03(ctx: &Ctx, out: &mut Vec<Violation>) {
                     continue;
                 }
                 if m.definitely_before(d, d2) && d2.recv_t < lease.lo {
+                    also_rejected(out, &lease, &format!("{}: message {} handed out again inside its lease", sub, msg));
                     out.push(v(
                         "C03.double",
                         "double",
@@ -673,16 +721,23 @@ fn rule_c01_drain(ctx: &Ctx, out: &mut Vec<Violation>) {
                 Some(list) => {
                     // Was any of its deliveries ever named by an acknowledgement?
                     let mut ever_acked = false;
+                    let mut rejected_lease = None;
                     for &di in list {
                         let d = &m.deliveries[di];
                         let lease = ctx.lease(d, inst.deadline_us());
                         if lease.maybe_acked {
                             ever_acked = true;
                         }
+                        if lease.rejected.is_some() {
+                            rejected_lease = Some(lease);
+                        }
                     }
                     if !ever_acked {
                         let in_drain = list.iter().any(|&di| m.deliveries[di].recv_seq > drain_start_seq);
                         if !in_drain {
+                            if let Some(l) = &rejected_lease {
+                                also_rejected(out, l, &format!("{}: message {} was never acknowledged by an accepted request but is gone", inst.name, id));
+                            }
                             out.push(v("C01.redelivery", "not_redelivered", format!("message {} on {} was delivered {} time(s), never acknowledged, but was not redelivered in the final drain", id, inst.name, list.len())));
                         }
                     }
@@ -1159,10 +1214,12 @@ fn rule_seq(ctx: &Ctx, out: &mut Vec<Violation>) {
                         }
                         if present && pret_t < lease.lo {
                             let rule = if lease.modified { "C05.early" } else { "C04.early" };
+                            also_rejected(out, &lease, &format!("{}: message {} redelivered before its lease could have ended", sub, id));
                             out.push(v(rule, "seq_early", format!("{}: message {} (ack id {}, handed out in [{},{}]us, lease certainly until {}us) redelivered by Pull call {} that returned at {}us", sub, id, d.recv.ack_id, d.lo_t, d.recv_t, lease.lo, probe.id, pret_t)));
                         }
                         if !present && has_room && immediate && pinv_t >= lease.hi {
                             let rule = if lease.nacked { "C05.nack".to_string() } else { format!("{fam}.late") };
+                            also_rejected(out, &lease, &format!("{}: message {} is not redelivered after its lease ended", sub, id));
                             out.push(v(&rule, "seq_late", format!("{}: message {} (ack id {}, lease certainly over at {}us) missing from immediate Pull call {} invoked at {}us with room ({} of max {})", sub, id, d.recv.ack_id, lease.hi, probe.id, pinv_t, got.len(), max)));
                         }
                     }
